@@ -113,7 +113,40 @@ CHECKS["C20"] = {
     "explanation": "C20_dump_is_print: for every in-scope value of any shape and depth the model of the dumper writes exactly print(doc v) (mutual structural induction); stream dump compares GetDumpStructStr byte for byte with the model and, independently, as decoded JSON with the standard encoder's output",
 }
 
+INJ_ASSUME = [
+    "go/parser is the environment: positions, tag literal text and comment texts of every struct field are inputs of the model (AstSummary), obtained by the harness with the stdlib",
+    "the two regular expressions are transcribed as byte scanners (rComment = `@tag (.*)`, rTags = `\\w+:\"[^\"]+\"`); Go's regexp semantics (leftmost, greedy) is assumed",
+    "file system effects (ReadDir / Glob order = lexical, ReadAll / WriteFile atomicity) are not modelled",
+    "documented shape (C06's quantifier): top-level ungrouped struct types, raw tag literals with distinct keys in conventional form separated by spaces, one trailing comment per field, distinct keys per comment",
+]
+for _pid, _mods in (("C06", "C06"), ("C07", "C07"), ("C19", "C19")):
+    CHECKS[_pid] = {
+        "modules": ["PGV.Props." + _mods], "audits": ["PGV/Audit/%s.lean" % _mods],
+        "streams": ["inject", "inject-cli"], "thorough_seeds": 4, "cli": True,
+        "assumptions": INJ_ASSUME,
+        "explanation": {
+            "C06": "C06_file: for every file seen as chunks (any number and placement of annotated literals) WriteFile's reverse-order splicing returns the file in which exactly those literals carry merge(old, comment); merge laws: injected keys carry the comment's value, old keys keep position (and value when unmentioned), new keys appended, no duplicates; override = merge under distinct keys",
+            "C07": "C07_merge_idem / C07_file_idem / C07_iterate: merging the same comment again changes nothing, so run n+1 = run n for every n >= 1; a file without annotations is written back unchanged",
+            "C19": "C19_non_go_untouched, C19_parse_failure_untouched, C19_no_tag_literal, C19_mention_only, C19_other_decls, C19_no_panic (well-formed areas never make a slice expression panic), C19_dir_independent (directory mode = every file on its own as long as no file panics)",
+        }[_pid] + "; streams inject (library entry points) and inject-cli (built CLI, -f/-d/-p mixed over 1-3 runs) compare every file's bytes after every run with the model and with an independent observer (reflect.StructTag lookups, bytes outside literals, run n+1 = run n)",
+    }
+
 MANIFEST_TEXT = {
+    "C06": {
+        "technique": "Lean 4 theorems (merge laws, override = merge, reverse-order splicing = in-place rewriting by induction over the chunks of a file) + differential correspondence incl. the built CLI + independent reflect.StructTag oracle",
+        "text": "Theorems for every file, of any size, with any number and placement of annotated fields: C06_file — WriteFile (areas applied from the end backwards, every slice expression with Go's bounds checks) returns the file in which exactly the annotated tag literals carry the merged tags and every other byte is where it was (C06_outside_unchanged); merge laws for all item lists: C06_merge_lookup_new, C06_merge_keeps_old (position, and value when unmentioned), C06_merge_appends, C06_merge_nodup; C06_override_is_merge (the code's loop = the spec under distinct keys). Tie: streams inject / inject-cli on generated Go sources, 1-3 runs, library and CLI (-f/-d/-p).",
+        "note": "Trusted: Lean kernel; go/parser (AstSummary is an input); regexp semantics of the two transcribed patterns; correspondence. Outside the documented shape (grouped declarations, several comments, repeated keys, interpreted literals) the model is still compared with the code but nothing is judged.",
+    },
+    "C07": {
+        "technique": "Lean 4 theorems (idempotence of merge; of the chunk-level file transformer; iteration) + differential correspondence over repeated runs",
+        "text": "Theorems: C07_merge_idem (merge (merge old inj) inj = merge old inj for every old and every comment with distinct keys), C07_file_idem and C07_iterate (n+1 runs = 1 run for every n, for files whose rewritten literals re-read to the merged items — a decidable per-literal condition the driver evaluates), C07_no_annotation_identity. Tie: every generated file is processed 1-3 times, mixing library, -f, -d, -p; run n+1 must equal run n byte for byte and equal the model.",
+        "note": "Trusted as C06. That newTagItems (format items) = items for all well-formed items is checked per case, not yet proved in general (the scanner round trip).",
+    },
+    "C19": {
+        "technique": "Lean 4 theorems (untouched files, no-area shapes, panic freedom of the splice under well-formed areas, per-file independence) + differential correspondence with the built CLI on mixed directories",
+        "text": "Theorems: non-.go files and files that do not parse are returned byte-identical; fields without tag literal, comments that merely mention @tag, functions / imports / consts / vars / non-struct types yield no area; on well-formed areas no slice expression of WriteFile / injectTag can panic (C19_no_panic); in directory / glob mode every file is processed on its own as long as no file panics (C19_dir_independent). Partial: go/parser, the file system and the runtime are outside the theorem; stream inject-cli runs the built CLI on directories mixing annotated, unannotated, broken and non-Go files and compares exit behaviour (panic output) and every file's bytes with the model.",
+        "note": "Trusted as C06. 'Valid Go re-parses after injection' is observed by the harness (go/parser on the output), not proved.",
+    },
     "C20": {
         "technique": "Lean 4 refinement theorem dump = print . doc (mutual structural induction over value trees) + differential correspondence + independent encoding/json oracle",
         "text": "Theorem C20_dump_is_print (with C20_object / C20_elements / C20_entries / C20_dump_appends): for EVERY in-scope value — field-less structs, first or all fields unexported, any nesting depth, nil and multi-level pointers, nil/empty/any-length slices and arrays, nil/empty/multi-entry maps — the dumper's buffer grows by exactly the compact JSON text of the value's document (objects with single commas between exported members, booleans as strings, nil slice [], nil map {}, nil pointer null). Tie: stream dump compares GetDumpStructStr with the model byte for byte (any map order) and decodes it with encoding/json against the standard encoding of the value.",
